@@ -106,6 +106,10 @@ def run_case(case):
         time_mapper=tm, active_timeout=td(active), inactive_timeout=td(inactive),
         closing_mapper=closing_mapper if closing else None, include_closing_item=include,
         pipeline=window_pipeline)]
+    if case.get('post'):
+        # a key-stateful stage behind time_split, in the same parent key: the last window's result must reach it before the
+        # parent key completes (total number of items in the key's windows)
+        inner = inner + [rs.ops.map(len), rs.math.sum(reduce=True)]
     if grouped == 'split':
         ops = [rs.data.split(lambda i: i[2], inner)]       # parent key slot re-used by successive segments
     else:
@@ -156,7 +160,12 @@ def run_case(case):
     # the emitted lists: every non-empty window appears exactly once in the output (empty ones may appear as [])
     outs = [o for o in r.items if o]
     flat = [w for ws in allw for w in ws]
-    if not cmp.same_bag(outs, flat, approx=False):
+    if case.get('post'):
+        want = sorted(len(plt['items']) for plt in plts)
+        if sorted(r.items) != want:
+            raise Violation('a stage behind time_split did not receive every window of its key before the key completed',
+                            expected_totals=want, got=r.items, **ctx)
+    elif not cmp.same_bag(outs, flat, approx=False):
         raise Violation('to_list results are not the windows', expected=flat, got=outs, **ctx)
     exact_gap = False
     for plt in plts:
@@ -184,7 +193,7 @@ def case_gen(draw):
         't0': draw(st.integers(0, 3)),
         'deltas': draw(st.lists(st.integers(0, 7), min_size=n, max_size=n)),
         'flags': draw(st.lists(st.integers(0, 3).map(lambda x: int(x == 0)), min_size=n, max_size=n)),
-        'grouped': draw(st.sampled_from([False, True, True, 'split'])), 'scale': draw(st.sampled_from([1, 1, 3600, 43200, 86400, 0.2, 0.001])), 'cm': draw(st.sampled_from(['lambda', 'default_arg', 'partial', 'obj'])), 'tz': draw(st.sampled_from([False, True, 'mixed'])),
+        'grouped': draw(st.sampled_from([False, True, True, 'split'])), 'scale': draw(st.sampled_from([1, 1, 3600, 43200, 86400, 0.2, 0.001])), 'cm': draw(st.sampled_from(['lambda', 'default_arg', 'partial', 'obj'])), 'tz': draw(st.sampled_from([False, True, 'mixed'])), 'post': draw(st.integers(0, 3)) == 0,
     }
     case['gk'] = draw(st.lists(st.integers(0, 2), min_size=n, max_size=n)) if case['grouped'] else None
     return case
